@@ -313,7 +313,7 @@ func (g *gen) run(c *Case) {
 	g.r.Eval(1)
 	g.r.Count("readnext_calls", calls)
 	if len(c.Cuts) > 1 || c.Carry > 0 {
-		g.r.Distinct(shape)
+		g.r.Distinct(shape + "/" + c.Class + "/" + c.Expect)
 	}
 	if c.EOFWithData {
 		g.r.Count("cases_eof_with_data", 1)
@@ -404,8 +404,8 @@ func Run(r *mon.Run) {
 	r.Rule = "direct ReadNext/WriteNext executions of CodecProto, CodecJSON and the HttpBody chunker: message sequences over boundary sizes x every read partition of short streams (sampled for long) x both end-of-stream styles x every initial carry-over x limits around each size x 1..10-byte length prefixes; a case is counted non-trivial when the stream is fragmented into >1 reads or starts with carried-over bytes; distinct = (codec, #messages, carry?, eof style, #cuts capped) shape"
 	r.Floor = 20
 	g := &gen{r: r, rng: r.Rand("codec")}
-	ex := r.Pick(9, 13)
-	samples := r.Pick(6, 60)
+	ex := r.Pick(9, 14)
+	samples := r.Pick(6, 150)
 
 	sizes := []int{0, 1, 2, 127, 128, 129, 300}
 	// 1. short proto sequences, exhaustive partitions
@@ -431,7 +431,7 @@ func Run(r *mon.Run) {
 		g.sweep("proto", msgs, protoStream(msgs), 4096, "ok", 0, "small", ex, samples)
 	}
 	// 2. boundary sizes, sampled schedules
-	nseq := r.Pick(40, 600)
+	nseq := r.Pick(40, 2500)
 	for i := 0; i < nseq; i++ {
 		k := g.rng.Intn(5)
 		var msgs [][]byte
